@@ -138,6 +138,8 @@ def run(ctx, prop, known_sig=None):
             ctx.stats.inconclusive += 1
     if prop == 5 and not viols:
         e2e_c05(ctx, tree)
+    if prop == 6 and not viols:
+        e2e_c06(ctx, tree)
     ctx.exhaustive = True
     ctx.notes["exhaustive_part"] = "all strings over {CR,LF,'.','x'} up to length %d; every read-split up to length %d" % (maxlen, splitmax)
     # report
@@ -152,6 +154,22 @@ def run(ctx, prop, known_sig=None):
 
 
 def replay(ctx, prop, path):
+    if path.endswith(".json"):
+        import json
+        from lib import sandbox
+        j = json.load(open(path))
+        sc = j.get("scenario", j)
+        tree = vlib.Tree()
+        sandbox.ensure_shim()
+        if isinstance(sc, dict) and sc.get("kind") == "tcp":
+            from props import c09
+            tree.make("qmail-remote", "qmail-rspawn")
+            rr = c09.RemoteRunner(tree, "replay")
+            out = [rr.run_scenario(sc, vlib.Stats()) for _ in range(3)]
+            return [out[0]] if all(out) else []
+        tree.make("qmail-smtpd")
+        out = [_e2e_worker((tree, 99, 1, 0, [sc])).violations for _ in range(3)]
+        return [out[0][0][0]] if all(out) else []
     tree = vlib.Tree()
     binp = build(tree, prop, False)
     data = open(path, "rb").read()
@@ -178,7 +196,8 @@ def _e2e_worker(job):
     import time, shutil
     from lib import sandbox
     from hypothesis import strategies as st
-    tree, wid, seed, n = job
+    tree, wid, seed, n = job[:4]
+    fixed = job[4] if len(job) > 4 else []
     line = st.lists(st.sampled_from([b"x", b".", b"..", b"\r", b"a b", b"Received: q", b".x", b"\xe9", b""]), max_size=4).map(b"".join).map(vlib.jsonable)
     scen = st.fixed_dictionaries({"lines": st.lists(line, max_size=8), "cuts": st.lists(st.integers(0, 400), max_size=2), "second": st.booleans()})
     stats = vlib.Stats()
@@ -236,7 +255,12 @@ def _e2e_worker(job):
             return None
         finally:
             s.kill()
-    vlib.hyp_search(scen, runfn, n, seed, stats)
+    for sc in fixed:
+        v = runfn(sc, stats)
+        if v:
+            stats.violations.append((v, sc))
+    if n:
+        vlib.hyp_search(scen, runfn, n, seed, stats)
     return stats
 
 
@@ -250,3 +274,31 @@ def e2e_c05(ctx, tree):
     sandbox.ensure_shim()
     jobs = [(tree, i, vlib.subseed(ctx.seed, "c05e2e", i), ctx.n(40, 600)) for i in range(vlib.NCPU)]
     ctx.stats.merge(vlib.run_workers(_e2e_worker, jobs))
+
+
+# ---------------------------------------------------------------- C06 end to end (real qmail-remote <-> scripted SMTP server of C09)
+def e2e_c06(ctx, tree):
+    """Message content must never reach a peer that is still in command mode: the real qmail-remote delivers messages whose bodies look like
+    SMTP commands to the scripted server of props/c09.py for every class of reply to DATA (354, other 3xx, 4xx, 5xx, disconnect); the server
+    records everything it receives. Oracle (C09's command-sequence check): a payload is sent only after a positive intermediate reply to DATA,
+    it is the reference encoding of the message (ending in the only CRLF.CRLF), and nothing but QUIT follows a refusal."""
+    from props import c09
+    tree.make("qmail-remote", "qmail-rspawn")
+
+    def rep(code, lines=1):
+        return {"k": "reply", "code": code, "lines": [{"b": "t%d" % i} for i in range(lines)], "eol": "\r\n", "chunks": [], "nosep": False}
+    hostile = b"Subject: x\n\nMAIL FROM:<ceo@corp.example>\nRCPT TO:<accounting@corp.example>\nDATA\nurgent payment\n.\nQUIT\n"
+    fixed = []
+    ok = [rep(220), rep(250), rep(250), rep(250), rep(354), rep(250)]
+    for code in (354, 300, 399, 400, 421, 450, 451, 452, 499, 500, 550, 554, 599):
+        for body in (hostile, b".\n..\nx\n", b"a\n"):
+            fixed.append({"kind": "tcp", "n": 1, "sender": {"b": "sender@src.example"}, "body": vlib.jsonable(body), "phases": ok[:4] + [rep(code)] + ok[5:]})
+    fixed.append({"kind": "tcp", "n": 1, "sender": {"b": "sender@src.example"}, "body": vlib.jsonable(hostile), "phases": ok[:4] + [{"k": "close", "rst": False, "sent": 0}]})
+    nsh = vlib.NCPU
+    jobs = [(tree, "c06-%d" % i, vlib.subseed(ctx.seed, "c06e2e", i), ctx.n(25, 400), 0, fixed[i::nsh]) for i in range(nsh)]
+    st_ = vlib.run_workers(c09.e2e_worker, jobs)
+    # every violation of these sessions concerns what was sent / reported for a given server behaviour
+    st_.violations = [("C06 end to end: " + m, sc) for m, sc in st_.violations]
+    for k in list(st_.classes):
+        st_.classes["e2e:" + k] = st_.classes.pop(k)
+    ctx.stats.merge(st_)
